@@ -78,6 +78,7 @@ TNAMES = ["base", "t1", "t2", "t3"]
 
 
 # which templates a generated template of the e2e sets may name (no include/import/extends cycles)
+ODD_SPELLINGS = ["./N", "d//N", "d/./N", "/N", "d/N", "N/", "./d/../N", "N.html", "d\\N", " N"]
 ACYCLIC = {"main": ["base", "t1", "t2", "t3"], "t1": ["base", "t2", "t3"], "t3": ["base", "t2"], "base": ["t2"], "t2": []}
 
 
@@ -881,6 +882,17 @@ def run_e2e(ctx, res, jinja2, stats):
                 continue
             srcs[nm] = src
         if len(srcs) == 5:
+            if rng.random() < 0.4:
+                # template names are opaque strings to everything but a loader: spell some of them with empty / `.` segments,
+                # a leading slash or a directory, in the sources and as loader keys alike — the loader must be asked for exactly
+                # the name that find_referenced_templates reports
+                spell = {nm: rng.choice(ODD_SPELLINGS).replace("N", nm) for nm in ("base", "t1", "t2", "t3") if rng.random() < 0.7}
+                ren = {}
+                for nm, src in srcs.items():
+                    for a, b in spell.items():
+                        src = src.replace(repr(a), repr(b)).replace('"' + a + '"', '"' + b + '"')
+                    ren[spell.get(nm, nm)] = src
+                srcs = ren
             all_sets.append((si, srcs))
     # the model's view of every template of every set (one driver batch)
     probe = jinja2.Environment()
